@@ -119,6 +119,40 @@ def h_maxvol_rect(ctx, n, r, perm, dr_min, dr_max, k0):
     ctx.claim('finite', finite(ctx, [B]))
 
 
+def h_maxvol_rect_chain(ctx, rows, dr_min, dr_max, k0):
+    """maxvol_rect on the fixed integer matrices of h_maxvol_chain (symbolic
+    positive column scales) with an iteration limit k0 below the length of the
+    exchange chain: the first stage stops at its limit with entries of B still
+    above e0, so rows have to be added for loose accuracies e as well.
+    Symbolic: e >= 1 and the column scales."""
+    n, r = len(rows), len(rows[0])
+    order, Lq, Uq = _exact_plu(rows)
+    c = vec(ctx, 'c', r)
+    for v in c:
+        ctx.assume(ctx.gt(v, 0))
+    K = lambda q: ctx.const(q.numerator) / q.denominator if q.denominator != 1 else ctx.const(q.numerator)
+    dt = c.dtype
+    L = np.array([[K(v) for v in row] for row in Lq], dtype=dt)
+    U = np.array([[K(Uq[i][j]) * c[j] for j in range(r)] for i in range(r)], dtype=dt)
+    A = np.array([[ctx.const(rows[i][j]) * c[j] for j in range(r)] for i in range(n)], dtype=dt)
+    Pm = np.array([[ctx.const(1 if order[j] == i else 0) for j in range(n)] for i in range(n)], dtype=dt)
+    expect(ctx, 'lu', A, (Pm, L, U))
+    e = ctx.real('e')
+    ctx.assume(ctx.ge(e, 1), 'e >= 1')
+    A0 = A.copy()
+    I, B = teneva.maxvol_rect(A, e, dr_min, dr_max, 1.05, k0)
+    I = [int(i) for i in I]
+    q = len(I)
+    hi = min(n, r + dr_max)
+    ctx.claim('rows_count', r + dr_min <= q <= hi)
+    ctx.claim('rows_valid', len(set(I)) == q and all(0 <= i < n for i in I))
+    ctx.claim('A_eq_B_AI', ctx.all_eq(B @ A0[I, :], A0))
+    ctx.claim('B_I_identity', ctx.all_eq(B[I, :], eye(ctx, q)))
+    if q < hi:
+        ctx.claim('row_norms', ctx.all_([ctx.le(sumsq(B[i, :]), e * e) for i in range(n)]))
+    ctx.claim('finite', finite(ctx, [B]))
+
+
 def h_dispatch_rect(ctx, n, r, perm, dr_min, dr_max):
     """teneva._maxvol with requested growth bounds that exceed the rows available
     (n - r): the bounds are clamped, never rejected (this is how TT-cross calls it)."""
@@ -228,6 +262,12 @@ def instances(tier):
         for p in perms(n, r, False)[:2 if tier == 'quick' else 3]:
             out.append({'func': 'h_maxvol_rect', 'params': {'n': n, 'r': r, 'perm': list(p),
                                                             'dr_min': a, 'dr_max': b, 'k0': k0}})
+    # first stage cut short by its iteration limit (chain matrices), loose and tight accuracies
+    # (found by search: a row of norm > 1.05 sqrt(r) is left after the k0 exchanges)
+    for rows, k0 in (([[4, -2], [4, -6], [1, 4], [4, 2]], 1),
+                     ([[-4, -1, -3], [-3, -4, -5], [2, -1, 6], [4, 4, -2], [-3, 1, 3]], 1),
+                     ([[6, -1], [5, 1], [-5, 5], [-3, 5], [-3, -4]], 1)):
+        out.append({'func': 'h_maxvol_rect_chain', 'params': {'rows': rows, 'dr_min': 0, 'dr_max': 2, 'k0': k0}})
     for (n, r, a, b) in [(3, 2, 2, 2), (3, 1, 3, 5), (4, 2, 3, 3), (3, 2, 1, 1), (3, 1, 0, 2), (4, 2, 0, 1)]:
         out.append({'func': 'h_dispatch_rect', 'params': {'n': n, 'r': r, 'perm': list(range(n)), 'dr_min': a, 'dr_max': b}})
     for k0 in (7, 250):
